@@ -151,6 +151,7 @@ def classes():
             {"name": "Mode", "isClass": False, "isFlag": False, "values": MODES},
             {"name": "Option", "isClass": False, "isFlag": False, "values": OPTIONS},
             {"name": "Options", "alias": "Option", "isClass": False, "isFlag": True, "values": OPTIONS},
+            {"name": "Level", "isClass": True, "isFlag": False, "values": ["Low", "Mid", "High"]},     # enum class: VfWidget.Level.Low
         ],
         "properties": [_prop(*p) for p in VF_PROPS],
         "signals": signals, "slots": slots, "methods": methods,
